@@ -180,6 +180,15 @@ def build_mc(ctx, names, metas_abs):
     dmg += [('next', i, x) for i in (1, 2, 3) for x in targets]
     dmg += [('head', i, x) for i in (1, 2) for x in targets]
     dmg += [('nlen', i, x) for i in (1, 2) for x in ['zero', 'over', 'beyond', 'max24', 'tofileend', 'tofileend1']]
+    dmg = [d + (0,) for d in dmg]
+    # file size as a damage dimension: sparse files of hundreds of pages, alone (still well-formed) and together with
+    # links at the top of the uint32 range, where off+8 / off+12 / off+16 wrap around
+    big = [406, 470, 1024]
+    tops = ['top1', 'top4', 'top8', 'top9', 'top12', 'top16', 'top17', 'dead', 'beyond', 'last16', 'edge']
+    dmg += [('none', 0, '-', pg) for pg in big + [2, 64]]
+    dmg += [(t, i, x, pg) for t in ('next', 'head') for i in (1, 2) for x in tops for pg in (big if ctx.thorough() else [470, 1024] if i == 1 else [406])]
+    dmg += [(t, 1, x, 0) for t in ('next', 'head') for x in tops[:7]]
+    dmg += [('nlen', 1, x, pg) for x in ('max24', 'beyond', 'tofileend', 'tofileend1') for pg in (470, 1024)]
     pair_bases = bases[:2] if ctx.thorough() else []
     mc = '''---- MODULE MCFileFormatParse ----
 EXTENDS FileFormatParse
@@ -194,7 +203,7 @@ MCPairBases == {%s}
 MCDamage == {%s}
 ====
 ''' % (',\n  '.join(ncat), ',\n  '.join(mcat), items, ', '.join(map(str, wfm)), meta_items, ', '.join(map(str, WF_METAS)), ', '.join(base(b) for b in bases),
-       ', '.join(base(b) for b in pair_bases), ', '.join('[t |-> "%s", i |-> %d, x |-> "%s"]' % d for d in dmg))
+       ', '.join(base(b) for b in pair_bases), ', '.join('[t |-> "%s", i |-> %d, x |-> "%s", pg |-> %d]' % d for d in dmg))
     return mc
 
 
